@@ -318,12 +318,20 @@ func RunConnPaired(env *Env, spec ConnSpec, seed int64, srvConn <-chan *nbio.Con
 	}
 	wg.Wait()
 	closedNow := func() bool { cl, _ := c.IsClosed(); return cl }
-	select {
-	case <-odDone:
-	case <-time.After(20 * time.Second):
-		if !closedNow() {
-			res.Incon = "OnData writer did not finish"
+	for i := 0; ; i++ {
+		select {
+		case <-odDone:
+		case <-time.After(10 * time.Millisecond):
+			if closedNow() {
+				break // the connection died: the remaining OnData ops will never be triggered
+			}
+			if i > 2000 {
+				res.Incon = "OnData writer did not finish"
+				break
+			}
+			continue
 		}
+		break
 	}
 	if spec.Pacing == "stopgo" {
 		close(startRead)
